@@ -137,9 +137,31 @@ func verifC18run(p *vProfile) {
 			h.checkOutputs(f, info2.Outputs)
 			verifWitness("reused-info")
 		}
+		// a second constructor (it may close a cycle with the first, duplicate one
+		// of its keys, or be fine) with a pre-populated Info struct
+		if p.lateRegs == 0 {
+			goto decorate
+		}
+		g := h.genFunc(vCtor, "g")
+		sentinel3 := &Output{name: "sentinel"}
+		info3 := ProvideInfo{ID: 999, Outputs: []*Output{sentinel3}}
+		rg := &vReg{f: g}
+		opts3 := append(g.provideOpts(rg, nil), FillProvideInfo(&info3))
+		o3 := vGuard(func() error { return c.Provide(mk(g), opts3...) })
+		verifObserve("provide2:" + vClassNames[o3.class])
+		if o3.class == vcOK {
+			h.checkInputs(g, info3.Inputs)
+			h.checkOutputs(g, info3.Outputs)
+		} else {
+			h.assert("C18.untouched", info3.ID == 999 && info3.Inputs == nil && len(info3.Outputs) == 1 && info3.Outputs[0] == sentinel3)
+			if o3.class == vcCycle {
+				verifWitness("cycle-rejected-info-untouched")
+			}
+		}
 	} else {
 		h.assert("C18.untouched", info.ID == 0 && info.Inputs == nil && info.Outputs == nil)
 	}
+decorate:
 	// Decorate
 	if p.decorators > 0 {
 		d := h.genFunc(vDecor, "d")
@@ -185,7 +207,13 @@ func verifC18b() { // As
 		faults: 2, invParams: 1})
 }
 
+func verifC18d() { // a second constructor that may close a cycle with the first or duplicate its key
+	verifC18run(&vProfile{name: "C18d", clauses: []string{"C18."},
+		maxScopes: 1, maxParams: 1, maxResults: 1, pForms: 2, rForms: 1, names: 2, optional: true, faults: 1, invParams: 0, lateRegs: 1})
+}
+
 func init() {
+	verifEntries["verifC18d"] = verifC18d
 	verifEntries["verifC18a"] = verifC18a
 	verifEntries["verifC18b"] = verifC18b
 	verifEntries["verifC18c"] = verifC18c
